@@ -28,6 +28,8 @@ Fixpoint norm_fields (fuel : nat) (s : schema) (idx : nat) (fs : list val) : lis
                                              end) l)
                  | CNone, TMsg j, VMsg (Some (fs1, u)) => VMsg (Some (norm_fields g s j fs1, u))
                  | CNone, TMsg j, VEmb fs1 u => VEmb (norm_fields g s j fs1) u
+                 | CNone, TMsg j, VOpt (Some x) =>        (* by-value member of a oneof *)
+                     match x with VEmb fs1 u => VOpt (Some (VEmb (norm_fields g s j fs1) u)) | _ => v end
                  | CNone, TMsg j, VList l =>
                      VList (map (fun e => match e with
                                           | VMsg None => VMsg (Some (match nth_error s j with Some mj => zero_fields s mj | None => [] end, []))
